@@ -297,6 +297,9 @@ def capture_stdout():
 # one shard (runs in a worker process)
 # ----------------------------------------------------------------------------
 
+_FAST_EXIT = [False]
+
+
 class _BudgetStop(KeyboardInterrupt):
     """Raised inside the property when the shard's wall budget is exhausted before any failure was seen."""
 
@@ -532,7 +535,8 @@ def main(argv=None):
     replay_results = []
     harness_errors = []
     kwargs = {'max_tasks_per_child': 1} if sys.version_info >= (3, 11) else {}
-    with cf.ProcessPoolExecutor(max_workers=args.workers, mp_context=ctx, **kwargs) as ex:
+    ex = cf.ProcessPoolExecutor(max_workers=args.workers, mp_context=ctx, **kwargs)
+    if True:
         futs = []
         if rpaths and not args.sub:
             futs.append(('replay', ex.submit(run_replays, module_name, rpaths)))
@@ -569,10 +573,20 @@ def main(argv=None):
             if args.fail_fast and kind == 'replay' and not isinstance(r, dict) and any(x.get('failure') for x in r):
                 stop = True
         if stop:
+            # sensitivity runs only: report the first violation now; the remaining workers are abandoned and the process
+            # leaves through os._exit at the end of main (joining a pool whose workers were terminated can block)
             for fu in [f for _, f in futs]:
                 fu.cancel()
-            for pr in list(getattr(ex, '_processes', {}).values()):
-                pr.terminate()
+            procs = list(getattr(ex, '_processes', {}).values())
+            ex.shutdown(wait=False, cancel_futures=True)
+            for pr in procs:
+                try:
+                    pr.kill()
+                except Exception:      # noqa
+                    pass
+            _FAST_EXIT[0] = True
+    if not _FAST_EXIT[0]:
+        ex.shutdown(wait=True)
 
     # ---- aggregate -----------------------------------------------------------------------
     violations = []
@@ -710,6 +724,10 @@ def main(argv=None):
     if args.sub or os.environ.get('VERIF_VERBOSE'):
         for k, v in cov['per_subcheck'].items():
             print('  ', k, json.dumps(v))
+    if _FAST_EXIT[0]:
+        sys.stdout.flush()
+        sys.stderr.flush()
+        os._exit(status)
     return status
 
 
